@@ -217,8 +217,11 @@ func newRig(sc *Scenario) *rig {
 	r.syn.SetRequester(r)
 	r.hub = component.NewComponentHub()
 	r.hub.Register(r.syn)
+	// component.hubInit is a package global meant for one hub per process: serialise, and let the
+	// component goroutine leave hubInit.wait() before the next hub re-initialises it.
 	hubStartLock.Lock()
 	r.hub.Start()
+	time.Sleep(3 * time.Millisecond)
 	hubStartLock.Unlock()
 	return r
 }
@@ -609,6 +612,9 @@ func (r *rig) onGetHashByNo(s *session, m *message.GetHashByNo) {
 	case "dup":
 		c := *truth
 		r.reply(s, d, truth, "GetHashByNoRsp", &c)
+	case "edge": // the truthful answer arrives just when the finder's timer fires
+		off := time.Duration(int64(h64(r.sc.Seed, "edge", m.BlockNo)%600)-300) * time.Microsecond
+		send(truth, fetchTimeout+off)
 	case "err":
 		send(&message.GetHashByNoRsp{Seq: m.Seq, Err: message.RemotePeerFailError}, d)
 	case "wrong":
@@ -987,15 +993,29 @@ func (r *rig) barrier(d time.Duration) bool {
 	return err == nil
 }
 
-func syncerGoroutines() string {
-	buf := make([]byte, 4<<20)
+// syncerGoroutines dumps the goroutines of package syncer; those that mention this rig's Syncer
+// (receiver pointer in the frame arguments) come first.
+func (r *rig) syncerGoroutines() string {
+	buf := make([]byte, 8<<20)
 	buf = buf[:runtime.Stack(buf, true)]
+	ptr := fmt.Sprintf("%p", r.syn)
+	all := strings.Split(string(buf), "\n\n")
+	var mine, others []string
+	for _, g := range all {
+		if strings.Contains(g, "aergo/v2/syncer.") {
+			if strings.Contains(g, ptr) {
+				mine = append(mine, g)
+			} else {
+				others = append(others, g)
+			}
+		}
+	}
 	var keep []string
-	for _, g := range strings.Split(string(buf), "\n\n") {
+	for _, g := range append(mine, others...) {
 		if strings.Contains(g, "aergo/v2/syncer.") {
 			lines := strings.Split(g, "\n")
-			if len(lines) > 14 {
-				lines = lines[:14]
+			if len(lines) > 18 {
+				lines = lines[:18]
 			}
 			keep = append(keep, strings.Join(lines, "\n"))
 		}
